@@ -14,7 +14,7 @@ BUDGET = {"quick": 2400, "thorough": 40000}
 LEVEL_TEXT = ("Lean theorems over all byte strings: the model of Write/handleCommand/handleProtocolVersion/handleBase64/"
               "DeserializeOptions/handleUserCommand/readCommand.Start/regex.Deserialize/NewAggregate/NewQuery with Go's indexing "
               "and slicing explicit never reaches a panic, except the recorded makechan finding; tied to the code by a differential "
-              "run of the real ServerHandler.Write (capturing callback: exact decode; real dispatch: crash / error-message count); tie G (panic-aware): C10_generated_query_parser_never_panics — the NewQuery of the working tree, translated on every run with every index and slice expression guarded, returns a query or an error for every query text (Lemmas/GenQuery.lean); C10_generated_command_decoder_never_panics — baseHandler.handleCommand / handleProtocolVersion / handleBase64 and config.DeserializeOptions / setOption as translated from the working tree (effects dropped, every index and slice expression kept and guarded) return for every command string (Lemmas/GenDecode.lean); c10.decode evaluates the translated decoder beside the model on every command (same panics, same line context and option map)")
+              "run of the real ServerHandler.Write (capturing callback: exact decode; real dispatch: crash / error-message count); tie G (panic-aware): C10_generated_query_parser_never_panics — the NewQuery of the working tree, translated on every run with every index and slice expression guarded, returns a query or an error for every query text (Lemmas/GenQuery.lean); C10_generated_command_decoder_never_panics — baseHandler.handleCommand / handleProtocolVersion / handleBase64 and config.DeserializeOptions / setOption as translated from the working tree (effects dropped, every index and slice expression kept and guarded) return for every command string (Lemmas/GenDecode.lean); c10.decode evaluates the translated decoder beside the model on every command (same panics, same line context and option map); C10_generated_command_decoder_refines_model: the translated handleCommand (its callback and handleOptions calls recorded) starts exactly what the model's decodeCommand decodes, or nothing where the model reports an error")
 TRUSTED = ["Lean 4 kernel", "axioms: propext, Quot.sound, Classical.choice (at most)", "fact extractor (protocol version)",
            "overlay harness + dtmodel driver + this diff",
            "modelled not verified: everything past dispatch (file I/O, regexp matching, the aggregator goroutines) is assumed panic-free; "
